@@ -15,33 +15,32 @@ def g_parse_tokens(nmax, **kw):
     return grp('L-PARSE', 'VH_parseTokens', [[n] for n in range(1, nmax + 1)],
                bound='all token sequences of length <= %d over 12 token classes' % nmax,
                symbolic='token class per position (choice variable, 12 values)',
-               asserts=['accept-iff-grammar', 'node-xor-error'], cost=10, **kw)
+               asserts=['accept-iff-grammar', 'node-xor-error'], cost=10, internal=True, **kw)
 
 
 ML = ['inLicenseList']
 LEX_FUNCS = ['scan', 'hasMore', 'parseToken', 'readRegex', 'read', 'skipWhitespace', 'readOperator', 'readID', 'readDocumentRef', 'readLicenseRef',
              'readLicense', 'normalizeLicense', 'licenseLookup', 'deprecatedLicenseLookup', 'activeLicense', 'deprecatedLicense', 'exceptionLicense', 'inLicenseList']
 LEX_ID_ASSERTS = ['error-only-for-unknown-id', 'unknown-id-rejected', 'token-role', 'exception-token-iff-exception-id', 'token-equals-reference', 'only-suffix-stripped',
-                  'plus-folded-into-or-later', 'or-later-rewritten-to-plus', 'list-spelling-active', 'unread-input-preserved', 'index-in-range',
-                  'error-cites-lexeme-and-offset', 'error-index-at-lexeme']
+                  'plus-folded-into-or-later', 'or-later-rewritten-to-plus', 'list-spelling-active', 'unread-input-preserved', 'index-in-range']
 
 
 def g_lex(tier, seed, **kw):
     mmax = 24 if tier == 'quick' else 47
     shapes = [(0, 0), (0, 1), (2, 2)] if tier == 'quick' else [(0, 0), (0, 1), (1, 1), (2, 2), (1, 3), (2, 0)]
     idj = [[p, m, c] for m in range(1, mmax + 1) for (p, c) in shapes]
-    kw = dict(kw, lift=True)
+    kw = dict(kw, lift=True, internal=True)
     gs = [grp('L-LEX/id', 'VH_lexID', idj, merge=ML, cost=12,
               bound='one scanner step on a run of m <= %d id characters at index p with c following bytes, (p,c) in %s' % (mmax, shapes),
               symbolic='all bytes of the buffer', asserts=LEX_ID_ASSERTS, **kw)]
     rj = [[p, w, m, c] for p in (0, 2) for w in 'DL' for m in (0, 1, 3, 6) for c in (0, 1, 2)]
     gs.append(grp('L-LEX/ref', 'VH_lexRef', rj, cost=1, bound='DocumentRef-/LicenseRef- followed by m in {0,1,3,6} id characters', symbolic='all other bytes',
-                  asserts=['missing-id-rejected', 'missing-id-offset', 'ref-accepted', 'ref-id-verbatim', 'unread-input-preserved'], **kw))
+                  asserts=['missing-id-rejected', 'ref-accepted', 'ref-id-verbatim', 'unread-input-preserved'], **kw))
     oj = [[p, k, c] for p in (0, 1, 2) for k in range(7) for c in (0, 1, 2)]
     gs.append(grp('L-LEX/operator', 'VH_lexOp', oj, cost=1, bound='each operator at index p in {0,1,2} followed by 0-2 bytes', symbolic='bytes before and after',
                   asserts=['operator-accepted', 'plus-after-space-rejected', 'token-equals-reference', 'unread-input-preserved'], **kw))
     gs.append(grp('L-LEX/stray', 'VH_lexOther', [[p, c] for p in (0, 1, 2) for c in (0, 1, 2)], cost=1, bound='a byte that starts no lexeme', symbolic='all bytes',
-                  asserts=['stray-byte-rejected', 'no-token-on-error'], **kw))
+                  asserts=['stray-byte-rejected'], **kw))
     gs.append(grp('L-LEX/spaces', 'VH_lexSkip', [[n, p] for n in range(0, 6) for p in range(0, n + 1)], cost=1, bound='buffers of <= 5 bytes', symbolic='all bytes',
                   asserts=['index-in-range', 'buffer-unchanged'], **kw))
     return gs
@@ -154,14 +153,14 @@ def c02(tier, seed):
         for pb in '01':
             for ea, eb in excs:
                 jobs.append(['L', pa, ea, 'L', pb, eb])
-    gs = [grp('L-MATCH/license-license', 'VH_match', jobs, merge=M, cost=30,
+    gs = [grp('L-MATCH/license-license', 'VH_match', jobs, merge=M, whole_table=True, cost=30,
               bound='all ordered pairs of the %s ids a term can carry (active + deprecated), each plain or with +, exception none / same / different (2 seed-chosen exception ids)' % 'listed',
               symbolic='two ids (choice variables over the whole lists)',
               asserts=['valid-terms-accepted', 'match-iff-documented', 'match-symmetric', 'match-reflexive'])]
     rj = [['R', '0', '-', 'R', '0', '-']]
     for p in '01':
         rj += [['L', p, '-', 'R', '0', '-'], ['R', '0', '-', 'L', p, '-'], ['L', p, e1, 'R', '0', '-']]
-    gs.append(grp('L-MATCH/refs', 'VH_match', rj, merge=M, cost=3,
+    gs.append(grp('L-MATCH/refs', 'VH_match', rj, merge=M, whole_table=True, cost=3,
                   bound='7 LicenseRef / DocumentRef:LicenseRef texts against each other and against every license id',
                   symbolic='reference text (choice variable), license id (choice variable)',
                   asserts=['valid-terms-accepted', 'match-iff-documented', 'match-symmetric', 'match-reflexive']))
@@ -191,10 +190,14 @@ def c08(tier, seed):
             jobs.append([pair, ctx, 'valid', '0', e1, '-'])
         jobs.append([pair, 'paren', 'term', '0', '-', '-'])
         jobs.append([pair, 'andparen', 'term', '1', '-', '-'])
-    gs.append(grp('spellings', 'VH_spell', jobs, merge=M, cost=40,
+    gs.append(grp('spellings', 'VH_spell', jobs, merge=M, whole_table=True, cost=40,
                   bound='X over all listed ids, both spellings valid; Y over all listed ids with/without +, with/without exception; contexts bare, (..), .. AND MIT, (MIT AND ..), MIT OR ..',
                   symbolic='ids X and Y (choice variables over the whole lists)', asserts=['same-validity', 'spellings-interchangeable']))
-    gs.append(grp('both-valid', 'VH_bothValid', [['plus'], ['only']], merge=M, cost=5,
+    cj = [[pair, op, e1, py] for pair in ('plus', 'only') for op in ('AND', 'OR') for py in '01']
+    gs.append(grp('spellings-in-compound', 'VH_spellCtx', cj, merge=MS, cost=20, whole_table=True,
+                  bound='"S op X WITH e" against [Y, Y WITH e], X and Y over all listed ids, op AND / OR, Y with and without +',
+                  symbolic='ids X and Y (choice variables over the whole lists)', asserts=['same-validity', 'spellings-interchangeable']))
+    gs.append(grp('both-valid', 'VH_bothValid', [['plus'], ['only']], merge=M, whole_table=True, cost=5,
                   bound='every active id', symbolic='id (choice variable)', asserts=['both-spellings-valid']))
     return gs
 
@@ -238,11 +241,11 @@ def c09(tier, seed):
 
 
 def c11(tier, seed):
-    return [grp('reach', 'VH_reach', [['0'], ['1']], merge=M, cost=30, bound='X+ against Y / Y+, X and Y over all listed ids',
+    return [grp('reach', 'VH_reach', [['0'], ['1']], merge=M, whole_table=True, cost=30, bound='X+ against Y / Y+, X and Y over all listed ids',
                 symbolic='ids X, Y', asserts=['plus-stays-in-family', 'plus-reaches-iff-later', 'valid-terms-accepted']),
             grp('table-well-formed', 'VH_tableWellFormed', [[]], cost=2, bound='all pairs of positions of the shipped family table',
                 symbolic='two table positions', asserts=['entry-listed', 'entry-at-one-position', 'family-one-key', 'group-one-version', 'groups-ascending']),
-            grp('table-lookup', 'VH_tableLookup', [[]], merge=M, cost=30, bound='all pairs of table positions through Satisfies',
+            grp('table-lookup', 'VH_tableLookup', [[]], merge=M, whole_table=True, cost=30, bound='all pairs of table positions through Satisfies',
                 symbolic='two table positions', asserts=['entry-at-own-position', 'valid-terms-accepted'])]
 
 
@@ -281,7 +284,7 @@ def c12(tier, seed):
             grp('fold-unique-disjoint', 'VH_foldUnique', [[a, b] for i, a in enumerate(lists) for b in lists[i:]], cost=1,
                 bound='all pairs of entries of the three lists', symbolic='two list indices', asserts=[]),
             grp('listed', 'VH_listed', [[l] for l in lists], merge=M, cost=10, bound='every entry of each list', symbolic='list index',
-                asserts=['id-accepted', 'exception-after-with', 'exception-after-with-only'])]
+                asserts=['id-accepted', 'id-reported-as-listed', 'exception-after-with', 'exception-after-with-only'])]
 
 
 # ---------------------------------------------------------------- trees
@@ -361,11 +364,12 @@ def sat_jobs(tier, seed, for_extract=False):
     add('n1', 1, kind_profiles(1, seed, True), ['0'], 'F', 2, 1, 0, 1)
     add('n2', 2, kind_profiles(2, seed, thorough), ['01', '10', '00'], 'FM', 2, 1, 0, 1)
     if thorough:
-        add('n3', 3, kind_profiles(3, seed, True), ident_profiles(3, True), 'FM', 3, 0, 0, 3)
-        add('n3-big-universe', 3, ['LLL', 'LPW', 'RLD', 'OlP', 'WDR'], ['012', '011'], 'M', 2, 1, 0, 3)
-        add('n4', 4, kind_profiles(4, seed, True), ident_profiles(4, True), 'FM', 3, 0, 1, 3)
+        add('n3', 3, kind_profiles(3, seed, True), ident_profiles(3, True), 'FM', 3, 0, 1, 3)
+        add('n3-all-orders', 3, ['LLL', 'LRL', 'RWL', 'PQO', 'DrR', 'UlW'], ['012', '010'], 'M', 3, 0, 0, 3)
+        add('n3-big-universe', 3, ['LLL', 'LPW', 'RLD', 'OlP', 'QWL', 'RrL', 'UlO', 'WQP', 'PPQ', 'DRr', 'OQW', 'lLU'], ['012', '011', '001'], 'M', 3, 1, 1, 4)
+        add('n4', 4, kind_profiles(4, seed, True), ident_profiles(4, True), 'F', 3, 0, 1, 3)
         add('n4-all-orders', 4, ['LLLL', 'LRLR'], ['0123'], 'M', 3, 0, 0, 8)
-        add('n5', 5, kind_profiles(5, seed, False), ['01234', '43210'], 'F', 4, 0, 1, 5)
+        add('n5', 5, kind_profiles(5, seed, False)[:8], ['01234', '43210'], 'F', 4, 0, 1, 5)
         add('n5-m5', 5, ['LLLLL', 'LRLRL'], ['01234'], 'M', 5, 0, 1, 6)
         t6 = trees(6)
         groups.append(('n6-third', [[e, 'LLLLLL', '012345', 'F', 5, 0, 1] if not for_extract else [e, 'LLLLLL', '012345', 'F'] for e in t6[seed % 3::3]], 6, 5, 30))
@@ -446,6 +450,30 @@ def rewrites(n_max, seed):
     return res
 
 
+def reassociate(enc):
+    """the same expression with every chain of equal operators re-nested to the right"""
+    pos = [0]
+    def parse():
+        c = enc[pos[0]]; pos[0] += 1
+        if c in '&|':
+            l = parse(); r = parse()
+            return (c, l, r)
+        return c
+    def flat(t, op):
+        if isinstance(t, tuple) and t[0] == op:
+            return flat(t[1], op) + flat(t[2], op)
+        return [t]
+    def build(t):
+        if not isinstance(t, tuple):
+            return t
+        items = [build(x) for x in flat(t, t[0])]
+        out = items[-1]
+        for x in reversed(items[:-1]):
+            out = t[0] + x + out
+        return out
+    return build(parse())
+
+
 def c10(tier, seed):
     thorough = tier == 'thorough'
     gs = []
@@ -456,8 +484,16 @@ def c10(tier, seed):
                 continue
             for e in trees(ne):
                 for f in trees(nf, ne):
-                    for k in (['L' * (ne + nf), ('LR' * 3)[:ne + nf]] if ne + nf <= 3 or thorough else ['L' * (ne + nf)]):
-                        hj.append([e, f, k, ''.join(str(i) for i in range(ne + nf)), 'M', 2 if ne + nf <= 3 else 3, 0])
+                    n = ne + nf
+                    asc = ''.join(str(i) for i in range(n))
+                    for k in (['L' * n, ('LR' * 3)[:n]] if n <= 3 or thorough else ['L' * n]):
+                        hj.append([e, f, k, asc, 'M', 2 if n <= 3 else 3, 0])
+                    if n <= 3:
+                        # the same id with and without '+' / exception on the two sides
+                        for k in (('LW' + 'L' * n)[:n], ('WL' + 'P' * n)[:n], ('PQ' + 'W' * n)[:n], ('OL' + 'W' * n)[:n]):
+                            hj.append([e, f, k, '0' * n, 'M', 2, 1])
+                            if n == 3:
+                                hj.append([e, f, k, '010', 'M', 2, 1])
     gs.append(grp('homomorphism', 'VH_hom', hj, merge=MS, cost=5, bound='sub-expressions E, F with |E|+|F| <= %d leaves' % (4 if not thorough else 5),
                   symbolic='allowed entries (choice variables)', asserts=['no-error-on-valid', 'and-homomorphic', 'or-homomorphic']))
     rj = []
@@ -465,6 +501,15 @@ def c10(tier, seed):
         for k in (['L' * n, ('RL' * 3)[:n]] if n <= 3 else ['L' * n]):
             idn = ''.join(str(i) for i in range(n))
             rj.append([l, r, k, idn, 'F', 'F', min(3, max(2, n)), 0, 1 if same else 0])
+    for l, r, n, same, rule in rewrites(3, seed):
+        if n <= 3:
+            for k in (('LW' + 'L' * n)[:n], ('PQ' + 'W' * n)[:n]):
+                rj.append([l, r, k, ('0' * n) if n < 3 else '001', 'F', 'F', 2, 1, 1 if same else 0])
+    # regrouping of whole trees: every 5-leaf tree against its right-nested re-association
+    for e in trees(5) if thorough else trees(5)[seed % 2::2]:
+        rr = reassociate(e)
+        if rr != e:
+            rj.append([e, rr, 'LLLLL', '01234', 'F', 'F', 4, 0, 1, 1])
     # parentheses and spacing only
     for n in (2, 3):
         for e in trees(n):
@@ -508,10 +553,10 @@ def selftest(tier, seed):
              ['MIT OR (ISC AND (Apache-2.0 OR GPL-2.0))', 'ISC', 'GPL-2.0'], ['(', 'MIT'], ['Apache-2.0-or-later AND FOO', 'MIT'],
              ['(Apache-2.0-or-later)', 'Apache-2.0'], ['DocumentRef-a:LicenseRef-b OR MIT+ WITH Bison-exception-2.2', 'DocumentRef-a:LicenseRef-b'],
              ['\xff\xfe', 'MIT'], ['  mit   AND(isc)', 'ISC', ' MIT ']]
-    return [grp('repo-test-inputs', 'VH_selftest', rows + extra, cost=1, compare_notes=True,
+    return [grp('repo-test-inputs', 'VH_selftest', rows + extra, cost=1, compare_notes=True, internal=True,
                 bound='%d (expression, allowed list) inputs taken from the repository\'s own *_test.go files plus %d extra' % (len(rows), len(extra)),
                 symbolic='none (concrete runs: translator validation)', asserts=['ran']),
-            grp('append-capacities', 'VH_selftestCaps', [[]], cost=1, compare_notes=True, bound='append growth of 6 slice types up to 70 elements and 64 multi-element appends',
+            grp('append-capacities', 'VH_selftestCaps', [[]], cost=1, compare_notes=True, internal=True, bound='append growth of 6 slice types up to 70 elements and 64 multi-element appends',
                 symbolic='none', asserts=['ran'])]
 
 
